@@ -278,6 +278,8 @@ def prepare(ctx):
             changed, _ = tables.regenerate()
             if changed:
                 ctx.notes.append("Generated/Tables.lean rewritten from the source")
+            for lapse in tables.LAPSES:
+                ctx.notes.append("tables: " + lapse)
         except tables.TableError as exc:
             ctx.tie_breaks.append(f"tables:{exc}")
         try:
